@@ -136,6 +136,12 @@ fn dev_tolerate(what: &str) -> bool {
 	std::env::var("C11_DEV_TOLERATE").map(|v| v.split(',').any(|t| t == what)).unwrap_or(false)
 }
 
+/// VERIF_DEBUG_FOREIGN=1 (or a comma separated subset of locktime,othernode,stalepkg,outofdomain) lets the panics
+/// that are normally only labelled fail the case, to obtain a replay file for the owning property
+fn debug_foreign(kind: &str) -> bool {
+	std::env::var("VERIF_DEBUG_FOREIGN").map(|v| v == "1" || v.split(',').any(|t| t == kind)).unwrap_or(false)
+}
+
 type Panic = Box<dyn std::any::Any + Send>;
 
 fn guarded<T>(f: impl FnOnce() -> T) -> Result<T, Panic> {
@@ -156,7 +162,7 @@ fn on_panic(p: Panic, ctx: &mut Ctx, title: &str, r: &Runner, debug: bool) -> Ca
 		dump(title, r);
 	}
 	let stalepkg = lp.as_ref().map(|(m, l)| l.contains("onchaintx.rs") && m.contains("self.pending_claim_requests.get(&claim_id).is_none()")).unwrap_or(false);
-	if stalepkg && std::env::var("VERIF_DEBUG_FOREIGN").is_err() {
+	if stalepkg && !debug_foreign("stalepkg") {
 		// OnchainTxHandler keeps the delayed (locktimed) claim package of a commitment that was reorganised out and
 		// parks a second one when it confirms again; at the HTLC expiry both become the same claim and a
 		// debug_assert on the duplicate claim id fires. In release builds the second claim simply replaces the first,
@@ -164,7 +170,7 @@ fn on_panic(p: Panic, ctx: &mut Ctx, title: &str, r: &Runner, debug: bool) -> Ca
 		ctx.label("library-debug-assert:onchaintx-duplicate-claim-after-reorg");
 		return Ok(());
 	}
-	if !locktime && !other_node && r.buried_tx_unburied() && std::env::var("VERIF_DEBUG_FOREIGN").is_err() {
+	if !locktime && !other_node && r.buried_tx_unburied() && !debug_foreign("outofdomain") {
 		// A channel transaction that had ANTI_REORG_DELAY confirmations on the chain the node was told was
 		// reorganised out (fork depth = delay, transaction in the first replaced block): the library had
 		// legitimately drawn irreversible conclusions; what it does when the chain then contradicts them (e.g. a
@@ -172,7 +178,7 @@ fn on_panic(p: Panic, ctx: &mut Ctx, title: &str, r: &Runner, debug: bool) -> Ca
 		ctx.label("out-of-domain:panic-after-buried-tx-was-reorged-out");
 		return Ok(());
 	}
-	if (locktime || other_node) && std::env::var("VERIF_DEBUG_FOREIGN").is_err() {
+	if (locktime && !debug_foreign("locktime")) || (!locktime && other_node && !debug_foreign("othernode")) {
 		let loc = lp.as_ref().map(|(_, l)| l.rsplit('/').next().unwrap_or("").to_string()).unwrap_or_default();
 		ctx.label(&if locktime { "foreign-failure:C07:broadcast-before-locktime-after-reorg".to_string() } else { format!("foreign-failure:C07:panic-in-unobserved-node@{}", loc) });
 		return Ok(());
